@@ -13,6 +13,7 @@ PROP = {
              "TestPolicyFoldThroughDispatcher runs runner.DispatchOnRequest over generated endpoint and global remedy lists (API-key authentication = header edits, fixed_response = early response or no-op, enabled/disabled). "
              "There a case is non-trivial when one header name is edited twice with different values, an answer follows other processors, or no-ops stand next to a modification"),
     "assumptions": [
+        "gateway unit: half of the flows whose request chain ends in an answering processor have a fan-out of further answering processors on the same connection source behind it (another answer, then mostly a copy of the first one): the graph walk runs such siblings too, so the request side produces several early responses, of which the first - the chain's - must reach the proxy unchanged",
         "the gateway's log level (LOG_LEVEL: off in three cases of eight, else error / info / debug / trace; what is logged is thrown away, what a log statement does to build its arguments happens) is a generated part of every case of the random fold units, TestFoldThroughGateway and TestPolicyFoldThroughDispatcher: no answer may depend on it; a failing case reports its level",
         "gateway unit: in one flow of four the process context is cancelled (the shutdown signal) between the transaction's request frame and its response frame; the response must still be handled as configured",
         "the SPOE library marshals the returned actions after the handler has returned: after every encoding three / two encodings of another transaction are produced and the first one must still read the same (byte slices compared by content)",
